@@ -12,6 +12,7 @@ import RisorModel.C18.Model
   trace    := per piece the statements executed by that piece's run, `id` or `id~` (stale globals view)
 `histh <host names> <history>` → the same answer with the listed names (n.n.n or "-") defined as
   host-supplied variables before the first piece (`Repl.init`, `SpecSt.init`, `guardHost`)
+`imp …` (layer 6: import cache) and `slots …` (layer 7: slot-indexed globals): see the sections below.
 `frag <instruction text>` → `accept <max height>` | `reject <why>`: the real fragment a piece added to
   the main code is position-independent (all jumps stay inside it), starts on an empty frame-relative
   stack, never reads below it and ends with exactly one value — C04's verified checker. -/
@@ -246,6 +247,119 @@ def answerHistC (host : List Nat) (cs : List Ctx) (ps : List Piece) : String :=
     bar (sl.map (·.1)), bar (sl.map (·.2)), (if gs.isEmpty then "-" else ",".intercalate gs),
     b01 (guardHost host ps), String.join (il.map (·.2.2.2))]
 
+/-! ### layer 6: `imp <inits> <deps> <seed> <nvars> <history>`
+  inits := one integer per module, "." separated (module numbers 0 … n-1)   deps := one 0/1 per module (module m imports m-1)
+  seed  := host-supplied modules n.n or "-"                                  history := piece ("|" piece)*, piece := "-" | stmt (";" stmt)*
+  stmt  := "i" h "." m | "b" h "." d | "g" h ("." h)* | "w" h | "k" j "." h
+  answer: `ok <impl> <spec> <contrast>`, each one snapshot per piece ("|"): log "/" cache size "/" values of the piece's expression
+  statements ("," between statements, "." inside) "/" module states "/" integer globals; spec = the concatenated program up to the end of
+  that piece; contrast = an import cache that every run starts afresh -/
+
+def parseIntList (s : String) : Option (List Int) :=
+  if s == "-" then some [] else (s.splitOn ".").mapM parseIntTok
+
+def parseIStmt (t : String) : Option IStmt :=
+  let args := (tl1 t).splitOn "."
+  if t.startsWith "i" then
+    match args with
+    | [h, m] => do pure (.imp (← h.toNat?) (← m.toNat?))
+    | _ => none
+  else if t.startsWith "b" then
+    match args with
+    | [h, d] => do pure (.bump (← h.toNat?) (← parseIntTok d))
+    | _ => none
+  else if t.startsWith "g" then (args.mapM String.toNat?).map .get
+  else if t.startsWith "w" then (tl1 t).toNat?.map .below
+  else if t.startsWith "k" then
+    match args with
+    | [j, h] => do pure (.keep (← j.toNat?) (← h.toNat?))
+    | _ => none
+  else none
+
+def parseImpHist (t : String) : Option (List (List IStmt)) :=
+  (t.splitOn "|").mapM fun p => if p == "-" then some [] else (p.splitOn ";").mapM parseIStmt
+
+def showInts (l : List Int) : String := dots (l.map toString)
+
+def impSnap (nm nv : Nat) (before s : ISt) : String :=
+  "/".intercalate [dots (s.log.map toString), toString s.cache.length,
+    (let vs := s.vals.drop before.vals.length; if vs.isEmpty then "-" else ",".intercalate (vs.map showInts)),
+    showInts ((List.range nm).map s.st), showInts ((List.range nv).map s.vars)]
+
+def impLog (reset : Bool) (cfg : ModCfg) (seed : List Nat) (nm nv : Nat) : ISt → List (List IStmt) → List String
+  | _, [] => []
+  | s, l :: rest =>
+    let s1 := execI cfg l (startRun reset seed s)
+    impSnap nm nv s s1 :: impLog reset cfg seed nm nv s1 rest
+
+/-- Spec: the concatenated program; the snapshot after the statements of each piece -/
+def impSpecLog (cfg : ModCfg) (nm nv : Nat) : ISt → List (List IStmt) → List String
+  | _, [] => []
+  | s, l :: rest =>
+    let s1 := execI cfg l s
+    impSnap nm nv s s1 :: impSpecLog cfg nm nv s1 rest
+
+/-! ### layer 7: `slots <names> <values> <history>`
+  names := the table before the first piece, n.n or "-"   values := its array, one entry per slot (an integer or "n"), "." separated, or "-"
+  history := piece ("|" piece)*   piece := decls "@" stmts   decls := n.n or "-"   stmts := "-" | stmt (";" stmt)*
+  stmt := "s" i "=" expr | "x" expr      expr := prefix tokens, "," separated: L<int> S<i> +
+  answer: `ok <impl> <spec> <by-name contrast> <final table> <scoped 0/1>`; per piece ("|") array "/" values of the piece's expression
+  statements; array entries "." separated, "n" = never stored; spec = the concatenated program on the full-size array -/
+
+def parseSTok : Nat → List String → Option (SExpr × List String)
+  | 0, _ => none
+  | fuel + 1, t :: rest =>
+    if t == "+" then do
+      let (a, r1) ← parseSTok fuel rest
+      let (b, r2) ← parseSTok fuel r1
+      pure (.add a b, r2)
+    else if t.startsWith "L" then (parseIntTok (tl1 t)).map fun v => (.lit v, rest)
+    else if t.startsWith "S" then (tl1 t).toNat?.map fun i => (.slot i, rest)
+    else none
+  | _, [] => none
+
+def parseS (t : String) : Option SExpr :=
+  let toks := t.splitOn ","
+  match parseSTok (toks.length + 1) toks with
+  | some (e, []) => some e
+  | _ => none
+
+def parseSStmt (t : String) : Option SStmt :=
+  if t.startsWith "x" then (parseS (tl1 t)).map .expr
+  else if t.startsWith "s" then
+    match (tl1 t).splitOn "=" with
+    | [i, e] => do pure (.set (← i.toNat?) (← parseS e))
+    | _ => none
+  else none
+
+def parseSPiece (t : String) : Option SPiece :=
+  match t.splitOn "@" with
+  | [d, ss] => do
+    let decls ← parseList d
+    let stmts ← if ss == "-" then some [] else (ss.splitOn ";").mapM parseSStmt
+    pure ⟨decls, stmts⟩
+  | _ => none
+
+def parseSlotVals (t : String) : Option Slots :=
+  if t == "-" then some [] else (t.splitOn ".").mapM fun x => if x == "n" then some none else (parseIntTok x).map some
+
+def showSlots (a : Slots) : String :=
+  dots (a.map fun v => match v with | some x => toString x | none => "n")
+
+def slotSnap (vs0 : List Int) (s : SSt) : String := showSlots s.1 ++ "/" ++ showInts (s.2.drop vs0.length)
+
+def slotLog (reload : List Nat → Slots → Slots) : List Nat → SSt → List SPiece → List String
+  | _, _, [] => []
+  | names, (a, vs), p :: rest =>
+    let s1 := execS p.stmts (reload (names ++ p.decls) a, vs)
+    slotSnap vs s1 :: slotLog reload (names ++ p.decls) s1 rest
+
+def slotSpecLog : SSt → List SPiece → List String
+  | _, [] => []
+  | (a, vs), p :: rest =>
+    let s1 := execS p.stmts (a, vs)
+    slotSnap vs s1 :: slotSpecLog s1 rest
+
 def handle : List String → String
   | ["hist", h] =>
     match parseHist h with
@@ -274,6 +388,24 @@ def handle : List String → String
       "\t".intercalate ["ok", bar (il.map (·.1)), bar (il.map (·.2.1)), bar (sl.map (·.1)), bar (sl.map (·.2)),
         bar (il.map (·.2.2)), (if firstBad < il.length then toString firstBad else "-")]
     | _, _ => "error\tbad-history"
+  | ["imp", inits, deps, seed, nv, h] =>
+    match parseIntList inits, parseList seed, nv.toNat?, parseImpHist h with
+    | some is, some sd, some nv, some ps =>
+      let ds := deps.toList.map (· == '1')
+      let cfg : ModCfg := ⟨fun m => is.getD m 0, fun m => ds.getD m false⟩
+      let nm := is.length
+      "\t".intercalate ["ok", bar (impLog importCacheResetEveryRun cfg sd nm nv (ISt.start sd) ps),
+        bar (impSpecLog cfg nm nv (ISt.start sd) ps), bar (impLog true cfg sd nm nv (ISt.start sd) ps)]
+    | _, _, _, _ => "error\tbad-import-session"
+  | ["slots", names, vals, h] =>
+    match parseList names, parseSlotVals vals, (h.splitOn "|").mapM parseSPiece with
+    | some ns, some a, some ps =>
+      if a.length != ns.length then "error\tarray and table differ in length" else
+      let whole0 : SSt := (a ++ List.replicate ((ns ++ allDecls ps).length - a.length) none, [])
+      "\t".intercalate ["ok", bar (slotLog reloadBySlot ns (a, []) ps), bar (slotSpecLog whole0 ps),
+        bar (slotLog reloadByName ns (a, []) ps), (let t := ns ++ allDecls ps; if t.isEmpty then "-" else dots (t.map toString)),
+        b01 (scopedFrom ns.length ps)]
+    | _, _, _ => "error\tbad-slot-session"
   | ["frag", text] =>
     match C04.decode true text with
     | .error e => "error\t" ++ e
